@@ -142,6 +142,31 @@ def run(ctx):
                 return g[1].split("::")[-1], mir.norm_path(t[1]).endswith("is_some")
         return None
 
+    stem_of_variant = {v["variant"]: v["stem"] for v in V}
+
+    def presence(c):
+        """(stem, present) when the condition says whether a variable is set: getter(sum).is_none()/is_some(), or a lookup of the variable's own key in
+        the entry map (entries.contains_key(&V), entries.get(&V).is_some()/is_none()) -- a variable is set exactly when its key has an entry"""
+        t = c.term
+        if not (c.fact[0] == "eq" and isinstance(c.fact[1], bool)):
+            return None
+        g = getter_of(t)
+        if g:
+            return (g[0], c.fact[1] == g[1])
+        key = None
+        pos = True
+        if is_call(t, "HashMap::contains_key") and len(call_args(t)) == 2:
+            key = call_args(t)[1]
+        elif is_call(t, "Option::is_none", "Option::is_some") and is_call(strip_refs(call_args(t)[0]), "HashMap::get"):
+            key = call_args(strip_refs(call_args(t)[0]))[1]
+            pos = mir.norm_path(t[1]).endswith("is_some")
+        if key is None:
+            return None
+        kv = agg_variant(strip_refs(key))
+        if not kv or kv[1] not in stem_of_variant:
+            return None
+        return (stem_of_variant[kv[1]], c.fact[1] == pos)
+
     # from_str validation chain
     tested = []
     for p in ret_paths(paths):
@@ -149,13 +174,12 @@ def run(ctx):
         a = agg_variant(er) if er else None
         if not (a and a[1] == "Incomplete"):
             continue
-        mvv = agg_variant(a[2][0])
-        c = p.conds()[-1]
-        g = getter_of(c.term)
-        truth = c.fact == ("eq", True)
-        if g and g[1]:
-            truth = not truth
-        tested.append((g[0] if g else None, mvv[1] if mvv else None, truth))
+        pl = strip_refs(a[2][0])
+        if is_call(pl, "Clone>::clone", "::clone") and call_args(pl):
+            pl = strip_refs(call_args(pl)[0])          # a table entry's error value, cloned
+        mvv = agg_variant(pl)
+        pr = presence(p.conds()[-1])
+        tested.append((pr[0] if pr else None, mvv[1] if mvv else None, (not pr[1]) if pr else False))
     by_stem = {v["stem"]: v for v in V}
     for v in required:
         ent = [t for t in tested if t[0] == v["stem"]]
@@ -170,8 +194,8 @@ def run(ctx):
     okpaths = [p for p in ret_paths(paths) if unwrap_ok(p.end[1]) is not None]
     ctx.floor("D2-REQUIRED-FROMSTR", FROMSTR_SUM, "Ok-returning paths", len(okpaths), 1)
     for p in okpaths:
-        seq = [getter_of(c.term)[0] for c in p.conds() if getter_of(c.term)]
-        ctx.check(seq == [v["stem"] for v in required], "D2-ORDER", FROMSTR_SUM, "test-order", "tests run in pkg_summary order",
+        seq = [presence(c)[0] for c in p.conds() if presence(c)]
+        ctx.check(seq == [v["stem"] for v in required] and all(presence(c)[1] for c in p.conds() if presence(c)), "D2-ORDER", FROMSTR_SUM, "test-order", "tests run in pkg_summary order",
                   "validation order %s differs from the spec order (the first missing variable must be reported)" % seq, nontrivial=False)
         ctx.check(strip_refs(unwrap_ok(p.end[1])) != ("undef", 0) and find_calls(unwrap_ok(p.end[1]), "Summary::new") != [] or isinstance(unwrap_ok(p.end[1]), tuple),
                   "D2-RETURN", FROMSTR_SUM, "returns-built-summary", "Ok(sum)", "Ok path does not return the summary that was filled", nontrivial=False)
